@@ -20,6 +20,9 @@ type lease struct {
 
 	// The duration of a lease (typically an election timeout).
 	duration time.Duration
+
+	// Time at which the lease was last renewed. Zero if the lease has never been renewed.
+	renewedAt time.Time
 }
 
 // newLease creates a new instance of a lease that will be valid
@@ -32,7 +35,14 @@ func newLease(duration time.Duration) *lease {
 // renew resets the expiration time of the lease to the current
 // time plus the duration of the lease.
 func (l *lease) renew() {
-	l.expiration = time.Now().Add(l.duration)
+	l.renewedAt = time.Now()
+	l.expiration = l.renewedAt.Add(l.duration)
+}
+
+// renewedWithin returns true if the lease has been renewed within
+// the provided duration and false otherwise.
+func (l *lease) renewedWithin(duration time.Duration) bool {
+	return !l.renewedAt.IsZero() && time.Since(l.renewedAt) < duration
 }
 
 // isValid returns true if the current time is less than
